@@ -15,7 +15,7 @@ inductive Op where
   | reput (m : Msg) (now : Int)       -- `enqueue` half of a requeue
   | update (now : Int)
   | poll (c : Nat) (cat : Cat) (now : Int) (topics : List String)
-  | finish (perm : List Held)
+  | finish (c : Nat) (perm : List Held)
   deriving Repr, DecidableEq
 
 def step (cron : String → Int → Int) (q : Q) : Op → Q
@@ -27,7 +27,7 @@ def step (cron : String → Int → Int) (q : Q) : Op → Q
   | .reput m now => reputA q m now cron
   | .update now => updateDelayed q now
   | .poll c cat now topics => (pollTake q c cat now topics).2
-  | .finish perm => if perm.isPerm q.processing then finishA q perm else q
+  | .finish c perm => if perm.isPerm q.processing then finishA q c perm else q
 
 def run (cron : String → Int → Int) (q : Q) (ops : List Op) : Q := ops.foldl (step cron) q
 
@@ -52,7 +52,7 @@ inductive Call where
   | nack (id : String)
   | reject (id : String)
   | requeue (m : Msg) (now : Int)
-  | finish (perm : List Held)
+  | finish (c : Nat) (perm : List Held)
   deriving Repr, DecidableEq
 
 def Call.atoms : Call → List Op
@@ -61,7 +61,7 @@ def Call.atoms : Call → List Op
   | .nack i => [.nack i]
   | .reject i => [.reject i]
   | .requeue m now => [.unhold m.id, .reput m now]
-  | .finish perm => [.finish perm]
+  | .finish c perm => [.finish c perm]
 
 /-- the effect of a call cancelled after `k` of its atoms -/
 def Call.cancelledAfter (c : Call) (k : Nat) : List Op := c.atoms.take k
